@@ -22,6 +22,22 @@ anyone).  `peek` steps read BinnedTrees(patch).trees of every patch of a catalog
 process; what they return is compared inside Coq (c07_pcase, bit 3) with the process model of
 Model/TreeCache.v under the code's policy (nothing is kept in memory: a peek returns the trees
 file).  The files after every step are compared as before, whoever executed the step.
+
+Patch metadata: a Catalog object reports number of records, sum of weights, centre and radius of every patch; the object
+that creates a cache computes them, Catalog(cache) reads them back from meta.yml, and a measurement uses them (totals
+normalise the counts; centre + radius decide through the patch linkage dist(c_i, c_j) <= r_i + r_j + largest angle which
+patch pairs are counted at all).  After every step of every history the metadata of the object in use (replaced by
+`reopen` steps) are compared inside Coq (c07_mcase, exact float64 values) with those of the creating object: the model
+(Model/TreeCache.v, mst / mrun) says a reopened catalog holds what was computed from the records.  Linkage-limit family
+(geom="edge"): 2-4 patches on one great circle (equator or tilted, centres from the records or explicit patch_centers,
+radian or degree input, generic float64 coordinates and weights) whose facing farthest records are exactly
+dist(c_k, c_k+1) - r_k - r_k+1 apart; the scale limit of the final measurement (rad / deg / arcmin, one or two scales) is
+that slack (computed from what the created Catalog objects report) plus a margin of 1e-9 ... 1e-12 rad, so the closest
+patch pair is linked by that margin and its facing records are counted; the history reopens participants of the final
+measurement (right after creation / after measurements and builds with other binnings and scales / twice) and measures,
+any executor.  Result against fresh caches as for all histories; a fresh measurement with the scale limit lowered by
+4e-8 rad shows that the facing records were counted.  A differing measurement together with differing metadata of a
+reopened catalog is reported as a failing input; differing metadata alone break the tie (ctx.disagree).
 """
 import os
 import pickle
@@ -44,17 +60,26 @@ TRUSTED = [
     "real forked child of the measuring process (harness: multiprocessing fork context + pipe); the Coq process model "
     "abstracts a pool as 'building workers and counting workers are forked from the measuring process' and a child as one "
     "forked process",
+    "harness-side observation of patch metadata: Catalog.get_num_records / get_sum_weights / get_centers / get_radii of the "
+    "object in use, converted exactly; the scale limit of the linkage-limit family is chosen by evaluating the documented "
+    "linkage rule on these values (no verdict depends on it: whether the facing records are counted is measured)",
 ]
 ASSUMPTIONS = [
     "a cache directory is used by one catalog in one role per measurement (the same cache passed twice to one "
     "crosscorrelate call is outside the statement)",
     "the pair counts of a measurement are a function of the patch data, the configuration and the content of trees.pkl "
     "(compared end-to-end against fresh caches on every history, not proved)",
+    "patch linkage (C07_count_linked_all etc.): stated for any distance that is symmetric and satisfies the triangle "
+    "inequality, with rational values; the angular distance on the sphere is such a distance (not formalised here), the "
+    "float64 evaluation of the linkage test is exercised at margins down to 1e-12 rad, not modelled",
 ]
 RULE = ("cases = (history of <= 10 steps on 3 catalogs, every step with its executor: measuring process / real pool of 2-3 "
         "workers / forked child process, data seed); distinct by (steps incl. executors, data seed); non-trivial when, "
         "before the final measurement, a participating catalog was asked for a binning different from the one the final "
-        "measurement asks for (the reuse decision sees a stored binning that must be rejected or was replaced)")
+        "measurement asks for (the reuse decision sees a stored binning that must be rejected or was replaced); "
+        "linkage-limit cases (generated geometry + scale limit, history with reopen steps, data seed): non-trivial when the "
+        "fresh measurement counts the facing records of the closest patch pair within 4e-8 rad of the scale limit (lowering "
+        "the limit changes the result) and the final measurement runs on a Catalog object reopened from its cache")
 
 HEADER = "From Verif Require Import Prelude TreeCache.\nOpen Scope Q_scope.\n"
 
@@ -74,6 +99,9 @@ SCALES = [
 Z_ON_EDGE = [0.25, 0.5, 0.5000000000000001, 0.625, 0.75, 1.0]
 Z_OTHER = [0.125, 0.375, 0.5625, 0.875, 1.25]
 CENTERS = [(30.0, 10.0), (42.0, -5.0), (55.0, 20.0)]
+Z_INSIDE = [0.375, 0.5625, 0.875]      # strictly inside a bin of every edge set
+EDGE_MARGINS = [1e-9, 1e-10, 1e-9, 1e-11, 1e-12]   # rad: how far inside the linkage limit the closest patch pair lies
+EDGE_INNER = 4e-8                      # rad: a scale limit lowered by this much no longer holds the facing records
 
 
 # ---------------------------------------------------------------- data
@@ -102,17 +130,96 @@ def gen_data(dseed):
     return data
 
 
+def _frame(prng, tilted):
+    """orthonormal (e1, e2, n): e1, e2 span the plane of a great circle (the equator when not tilted)"""
+    if not tilted:
+        return np.eye(3)
+    inc, node = prng.uniform(-1.1, 1.1), prng.uniform(0.0, 6.0)
+    e1 = np.array([np.cos(node), np.sin(node), 0.0])
+    z = np.array([0.0, 0.0, 1.0])
+    e2 = np.cos(inc) * np.cross(z, e1) + np.sin(inc) * z
+    return np.array([e1, e2, np.cross(e1, e2)])
+
+
+def _on_circle(fr, phi, a, b):
+    """(ra, dec) in radian of the point at position phi + a along the great circle, b off it"""
+    e1, e2, n = fr
+    v = np.cos(b) * (np.cos(phi + a) * e1 + np.sin(phi + a) * e2) + np.sin(b) * n
+    return float(np.arctan2(v[1], v[0]) % (2.0 * np.pi)), float(np.arcsin(max(-1.0, min(1.0, v[2]))))
+
+
+def gen_edge_data(dseed):
+    """three catalogs with the same 2-4 patches whose centres lie on ONE great circle (equator or tilted); every patch
+    of every catalog has its two farthest records on that circle at +-R_k from the centre (they define the radius), the
+    other records come in pairs mirrored at the centre and lie within 0.85 R_k, so the facing records of neighbouring
+    patches are dist(c_k, c_k+1) - r_k - r_k+1 apart: exactly what the patch linkage leaves between two patches.  All
+    neighbouring patches leave the same gap.  Patches either get their centre from the records (mean) or from explicit
+    patch_centers; coordinates are generic float64 (nothing dyadic), given in radian or degrees."""
+    prng = random.Random(dseed)
+    npatch = prng.choice([2, 2, 3, 4])
+    fr = _frame(prng, prng.random() < 0.65)
+    explicit = prng.random() < 0.5
+    degrees = prng.random() < 0.4
+    radius = [prng.uniform(0.006, 0.010) for _ in range(npatch)]
+    gap = prng.uniform(0.005, 0.009)          # > any difference of radii: every record is nearest to its own centre
+    phi = [prng.uniform(0.2, 5.0)]
+    for k in range(1, npatch):
+        phi.append(phi[-1] + radius[k - 1] + radius[k] + gap)
+    zext = prng.choice(Z_INSIDE)              # all facing records share a redshift bin (autocorrelation counts within a bin)
+    centers = [_on_circle(fr, p, 0.0, 0.0) for p in phi]
+    small = prng.choice(CATS) if prng.random() < 0.25 else None
+    data = {}
+    for name in CATS:
+        cols = dict(ra=[], dec=[], pid=[], z=[], w=[])
+        generic_w = prng.random() < 0.5
+        size = 0.9 if name == small else 1.0       # one catalog may have smaller patches than the others
+        for k in range(npatch):
+            for j in range(prng.randrange(3, 6)):
+                if j == 0:
+                    a, b = size * radius[k], 0.0
+                else:
+                    a, b = prng.uniform(-0.6, 0.6) * radius[k], prng.uniform(-0.6, 0.6) * radius[k]
+                w = prng.uniform(0.5, 2.0) if generic_w else prng.randrange(1, 9) / 4.0
+                for s in (1, -1):
+                    ra, dec = _on_circle(fr, phi[k], s * a, s * b)
+                    cols["ra"].append(float(np.rad2deg(ra)) if degrees else ra)
+                    cols["dec"].append(float(np.rad2deg(dec)) if degrees else dec)
+                    cols["pid"].append(k)
+                    cols["z"].append(zext if j == 0 else
+                                     (prng.choice(Z_ON_EDGE) if prng.random() < 0.6 else prng.choice(Z_OTHER + Z_INSIDE)))
+                    cols["w"].append(w)
+        data[name] = dict(cols=cols, weights=prng.random() < 0.5,
+                          create=dict(degrees=degrees, centers=centers if explicit else None))
+    return data
+
+
+def data_of(spec):
+    return gen_edge_data(spec["dseed"]) if spec.get("geom") == "edge" else gen_data(spec["dseed"])
+
+
 def create(path, d):
     shutil.rmtree(path, ignore_errors=True)
-    kw = dict(ra_name="ra", dec_name="dec", redshift_name="z", patch_name="pid", max_workers=1)
+    kw = dict(ra_name="ra", dec_name="dec", redshift_name="z", max_workers=1)
+    how = d.get("create") or dict(degrees=True, centers=None)
+    kw["degrees"] = how["degrees"]
+    if how["centers"] is None:
+        kw["patch_name"] = "pid"
+    else:     # records are assigned to the nearest centre, patch ids = positions in the list
+        kw["patch_centers"] = impl.AngularCoordinates(how["centers"])
     if d["weights"]:
         kw["weight_name"] = "w"
     return impl.Catalog.from_dataframe(path, impl.make_df(d["cols"]), **kw)
 
 
 # ---------------------------------------------------------------- operations
+def scales_of(c):
+    """an index into SCALES, or the scales themselves (the linkage-limit family computes them from the data)"""
+    sc = c["scales"]
+    return SCALES[sc] if isinstance(sc, int) else dict(rmin=sc["rmin"], rmax=sc["rmax"], unit=sc["unit"])
+
+
 def make_config(c):
-    return impl.Configuration.create(edges=EDGE_SETS[c["edges"]], closed=c["closed"], **SCALES[c["scales"]])
+    return impl.Configuration.create(edges=EDGE_SETS[c["edges"]], closed=c["closed"], **scales_of(c))
 
 
 def participants(op):
@@ -166,7 +273,7 @@ def coq_build(b, force):
 
 
 def coq_measure(c, role):
-    sc = SCALES[c["scales"]]
+    sc = scales_of(c)
     rmin, rmax = np.atleast_1d(sc["rmin"]), np.atleast_1d(sc["rmax"])
     scales = fq.lst([fq.pair(fq.q(a), fq.q(b_)) for a, b_ in zip(rmin, rmax)])
     return "(Measure {| c_edges := %s; c_closed := %s; c_scales := %s |} %s)" % (
@@ -331,6 +438,37 @@ def observe(cat):
     return out
 
 
+META_FIELDS = ["num_records", "sum_weights", "center_ra", "center_dec", "radius"]
+
+
+def meta_obs(cat):
+    """what a Catalog object reports about its patches (public getters): pid -> [num_records, sum_weights, centre ra,
+    centre dec, radius] as python floats"""
+    pids = [int(p) for p in cat.keys()]
+    num, sw = cat.get_num_records(), cat.get_sum_weights()
+    cen = np.asarray(cat.get_centers().data, dtype=np.float64).reshape(-1, 2)
+    rad = np.asarray(cat.get_radii().data, dtype=np.float64).reshape(-1)
+    return {p: [float(num[i]), float(sw[i]), float(cen[i][0]), float(cen[i][1]), float(rad[i])] for i, p in enumerate(pids)}
+
+
+def meta_changes(created, row):
+    """[(pid, field, created value, value now)] where the bit patterns differ"""
+    out = []
+    for p in sorted(created):
+        now = row.get(p)
+        if now is None:
+            out.append((p, "patch-missing", None, None))
+            continue
+        for f, a, b_ in zip(META_FIELDS, created[p], now):
+            if float(a).hex() != float(b_).hex():
+                out.append((p, f, a, b_))
+    return out
+
+
+def coq_meta_row(row):
+    return fq.lst([fq.qlist(row[p]) for p in sorted(row)])
+
+
 def raw_codec_agrees(cat):
     """informational: the documented file format (1 byte + float64 edges) decodes to what the
     implementation's reader returns; returns (agree, total)"""
@@ -392,7 +530,7 @@ def run_history(ctx, tag, data, ops, record=True):
     (per catalog: list of labelled coq ops, per-patch file observations, peek rows, final request), result, cats"""
     paths = {n: impl.fresh_dir(ctx, "%s_%s" % (tag, n)) for n in CATS}
     cats = {n: create(paths[n], data[n]) for n in CATS}
-    per = {n: dict(ops=[], obs=[], loaded=[], final=None) for n in CATS}
+    per = {n: dict(ops=[], obs=[], loaded=[], final=None, meta0=meta_obs(cats[n]) if record else None, meta=[]) for n in CATS}
     result = None
     for i, op in enumerate(ops):
         result = apply_op(cats, paths, op)
@@ -400,6 +538,7 @@ def run_history(ctx, tag, data, ops, record=True):
             for name, (cop, req) in requests(op, len(cats[CATS[0]])).items():
                 per[name]["ops"].append("CPeek" if cop is None else "(CDo %s %s)" % (executor(op), cop))
                 per[name]["obs"].append(observe(cats[name]))
+                per[name]["meta"].append(meta_obs(cats[name]))     # of the object in use (replaced by reopen steps)
                 per[name]["loaded"].append(result if op["op"] == "peek" else None)
                 if i == len(ops) - 1:
                     per[name]["final"] = req
@@ -410,7 +549,9 @@ def coq_lobs(o):
     return "None" if o == "nofile" else "(Some (%s, %s))" % (fq.b(o[0]), fq.nlist(o[1]))
 
 
-def fresh_result(ctx, tag, data, final_op, flipped=False):
+def fresh_result(ctx, tag, data, final_op, flipped=False, inner=False):
+    """the final measurement on freshly created caches; optionally (afterwards, same catalogs) the same with the other
+    closed side and with all upper scale limits lowered by EDGE_INNER rad"""
     paths = {n: impl.fresh_dir(ctx, "%s_%s" % (tag, n)) for n in CATS}
     cats = {n: create(paths[n], data[n]) for n in CATS}
     res = measure(cats, final_op)
@@ -418,9 +559,18 @@ def fresh_result(ctx, tag, data, final_op, flipped=False):
     if flipped:
         f = dict(final_op, cfg=dict(final_op["cfg"], closed="left" if final_op["cfg"]["closed"] == "right" else "right"))
         res_flip = measure(cats, f)
+    if inner:
+        res_flip = (res_flip, measure(cats, dict(final_op, cfg=dict(final_op["cfg"], scales=lowered(final_op["cfg"]["scales"])))))
     for p in paths.values():
         shutil.rmtree(p, ignore_errors=True)
     return res, res_flip
+
+
+def lowered(sc, by=EDGE_INNER):
+    """explicit angular scales with every upper limit lowered by `by` rad"""
+    f = UNIT_PER_RAD[sc["unit"]]
+    rmax = [float(x) - by * f for x in np.atleast_1d(sc["rmax"])]
+    return dict(sc, rmax=rmax if isinstance(sc["rmax"], list) else rmax[0])
 
 
 def is_measure(op):
@@ -456,7 +606,7 @@ def followup_for(op):
 
 def search_prefixes(ctx, idx, spec):
     """§2.3 step 4: look for a prefix of the history after which a measurement differs from fresh caches"""
-    data = gen_data(spec["dseed"])
+    data = data_of(spec)
     ops = spec["ops"]
     for j in range(1, len(ops) + 1):
         fu = followup_for(ops[j - 1])
@@ -475,7 +625,7 @@ def search_prefixes(ctx, idx, spec):
             ctx.fail("c07-measurement-differs-from-fresh-cache",
                      "measurement after a cache history differs from the same measurement on fresh caches (%s); "
                      "shortest failing prefix has %d operations" % (why, len(cand)),
-                     dict(dseed=spec["dseed"], ops=cand), case=idx)
+                     replay_of(spec, ops=cand), case=idx)
             return True
     return False
 
@@ -499,9 +649,18 @@ def differs_from_fresh(ctx, tag, data, ops):
     return (not ok), why
 
 
-def report_difference(ctx, idx, spec, data, why):
+def replay_of(spec, **more):
+    out = dict(dseed=spec["dseed"], ops=spec["ops"])
+    if spec.get("geom"):
+        out["geom"] = spec["geom"]
+    out.update(more)
+    return out
+
+
+def report_difference(ctx, idx, spec, data, why, meta_diff=()):
     """the final measurement of spec differs from fresh caches: shrink the history (drop steps while it still differs,
-    bounded) and name the structure: does it need steps executed outside the measuring process?"""
+    bounded) and name the structure: does it need a reopened catalog whose patch metadata are not those of the creating
+    object?  does it need steps executed outside the measuring process?"""
     ops = list(spec["ops"])
     budget = 14
     i = 0
@@ -512,7 +671,19 @@ def report_difference(ctx, idx, spec, data, why):
             ops = cand
         else:
             i += 1
-    replay = dict(dseed=spec["dseed"], ops=spec["ops"], shrunk_ops=ops)
+    replay = replay_of(spec, shrunk_ops=ops)
+    if meta_diff and any(op["op"] == "reopen" for op in ops):
+        kept = [op for op in ops if op["op"] != "reopen"]
+        if not differs_from_fresh(ctx, "n%d" % idx, data, kept)[0]:
+            fields = sorted({f for _, _, ch in meta_diff for _, f, _, _ in ch})
+            ctx.fail("c07-measurement-differs-after-reopen:patch-metadata-not-as-created",
+                     "measurement after a cache history differs from the same measurement on fresh caches (%s); the history "
+                     "reopens a catalog (Catalog(cache)) and the reopened object reports other patch metadata (%s) than the "
+                     "object that created the cache; without the reopen steps the shrunk history gives the fresh result; "
+                     "shrunk history: %s; first metadata differences (catalog, step, [(patch, field, created, reopened)]): %s"
+                     % (why, ", ".join(fields), [op["op"] for op in ops], [(n, i, ch[:3]) for n, i, ch in meta_diff[:3]]),
+                     dict(replay, metadata_differences=[(n, i, ch[:4]) for n, i, ch in meta_diff[:6]]), case=idx)
+            return
     if any(elsewhere(op) for op in ops):
         seq = [strip_exec(op) for op in ops]
         if not differs_from_fresh(ctx, "q%d" % idx, data, seq)[0]:
@@ -528,7 +699,7 @@ def report_difference(ctx, idx, spec, data, why):
 
 
 def one_history(ctx, idx, spec, terms, owners):
-    data = gen_data(spec["dseed"])
+    data = data_of(spec)
     ops = spec["ops"]
     per, res, cats, paths = run_history(ctx, "h%d" % idx, data, ops)
     ok_raw, n_raw = 0, 0
@@ -537,10 +708,23 @@ def one_history(ctx, idx, spec, terms, owners):
         ok_raw, n_raw = ok_raw + a, n_raw + b_
     ctx.bump("binning_files_matching_documented_format", ok_raw)
     ctx.bump("binning_files_seen", n_raw)
-    fres, fflip = fresh_result(ctx, "f%d" % idx, data, ops[-1], flipped=True)
+    edge = spec.get("geom") == "edge"
+    fres, fflip = fresh_result(ctx, "f%d" % idx, data, ops[-1], flipped=True, inner=edge)
+    finner = None
+    if edge:
+        fflip, finner = fflip
+    # the metadata every Catalog object in use reported after every step, against the creating object (bit patterns)
+    meta_diff = []
+    for n in CATS:
+        for i, row in enumerate(per[n]["meta"]):
+            ch = meta_changes(per[n]["meta0"], row)
+            if ch:
+                meta_diff.append((n, i, ch))
+    if meta_diff:
+        ctx.bump("histories_with_changed_patch_metadata")
     ok, why = same_result(res, fres)
     if not ok:
-        report_difference(ctx, idx, spec, data, why)
+        report_difference(ctx, idx, spec, data, why, meta_diff)
     if not same_result(fres, fflip)[0]:
         ctx.bump("closed_side_changes_final_result")
     # coq terms: one per catalog (state vector over its patches; patch ids are 0..n-1 = positions)
@@ -556,11 +740,27 @@ def one_history(ctx, idx, spec, terms, owners):
             fq.lst(per[n]["ops"]), fq.lst([fq.qlist(redshifts[p]) for p in pids]),
             fq.lst([fq.lst([coq_obs(o[p]) for p in pids]) for o in per[n]["obs"]]),
             fq.lst([fq.lst([] if l is None else [coq_lobs(l[p]) for p in pids]) for l in per[n]["loaded"]]), fstr))
-        owners.append((idx, n))
+        owners.append((idx, n, "trees"))
+        terms.append("c07_mcase %s %s %s" % (fq.lst(per[n]["ops"]), coq_meta_row(per[n]["meta0"]),
+                                              fq.lst([coq_meta_row(r) for r in per[n]["meta"]])))
+        owners.append((idx, n, "meta"))
     nt = nontrivial(ops)
     mixed = mixes_processes(ops)
+    reopened = {op["cat"] for op in ops[:-1] if op["op"] == "reopen"} & set(participants(ops[-1]))
+    if reopened:
+        ctx.bump("histories_measuring_on_a_reopened_catalog")
+    if edge:
+        # non-trivial: the facing records of the closest patch pair are counted by the fresh measurement and lie within
+        # EDGE_INNER of the scale limit (lowering the limit changes the result), and the final measurement runs on a
+        # catalog object that was reopened from the cache
+        tight = not same_result(fres, finner)[0]
+        ctx.bump("edge:facing_records_counted_within_%.0e_rad_of_scale_limit" % EDGE_INNER, int(tight))
+        ctx.bump("edge:final_on_reopened_catalog", int(bool(reopened)))
+        ctx.bump("edge:margin_%.0e" % spec["edge"]["margin"] if spec.get("edge") else "edge:replayed")
+        nt = tight and bool(reopened)
     ctx.count(key=(spec["dseed"], repr(ops)), nontrivial=nt,
-              kind="final:%s/len%d%s" % (ops[-1]["op"], len(ops), "/mixed-processes" if mixed else ""))
+              kind="%sfinal:%s/len%d%s" % ("linkage-limit/" if edge else "", ops[-1]["op"], len(ops),
+                                           "/mixed-processes" if mixed else ""))
     if mixed:
         ctx.bump("histories_mixing_processes")
         if nt:
@@ -783,12 +983,157 @@ def corpus():
     ]
 
 
+# ---------------------------------------------------------------- histories at the patch-linkage limit
+UNIT_PER_RAD = {"rad": 1.0, "deg": 180.0 / np.pi, "arcmin": 60.0 * 180.0 / np.pi}
+
+
+def link_slack(cats):
+    """the documented patch linkage (PatchLinkage: the catalog with most records gives centres and radii, a radius is
+    enlarged to hold the patch of every other catalog; two patches are linked when dist(c_i, c_j) <= r_i + r_j + largest
+    angle) evaluated on what the Catalog objects report: {(i, j): dist(c_i, c_j) - r_i - r_j}, i < j (the largest value
+    over the choice of the reference catalog).  Only used to CHOOSE a scale limit; no verdict depends on it."""
+    out = {}
+    for ref in cats:      # whichever catalog serves as the reference: keep the largest slack
+        centers = ref.get_centers()
+        radii = np.array(ref.get_radii().data, dtype=np.float64)
+        for c in cats:
+            if c is not ref:
+                radii = np.maximum(radii, np.asarray(c.get_radii().data) + np.asarray(centers.distance(c.get_centers()).data))
+        for i in range(len(radii)):
+            dist = np.asarray(centers.distance(centers[i]).data)
+            for j in range(i + 1, len(radii)):
+                out[(i, j)] = max(out.get((i, j), -np.inf), float(dist[j] - radii[i] - radii[j]))
+    return out
+
+
+def calibrate_edge(ctx, tag, data, final_op):
+    """create the catalogs of the final measurement once and return the largest slack between neighbouring patches (all
+    neighbours leave the same slack up to rounding), or None when the geometry is not the intended one"""
+    parts = list(participants(final_op))
+    paths = {n: impl.fresh_dir(ctx, "%s_%s" % (tag, n)) for n in parts}
+    try:
+        cats = {n: create(paths[n], data[n]) for n in parts}
+        npatch = len(cats[parts[0]])
+        if any(sorted(int(p) for p in c.keys()) != list(range(npatch)) for c in cats.values()):
+            return None
+        slack = link_slack(list(cats.values()))
+        adj = [slack[(k, k + 1)] for k in range(npatch - 1)]
+    finally:
+        for p in paths.values():
+            shutil.rmtree(p, ignore_errors=True)
+    if min(adj) < 1e-3 or max(adj) - min(adj) > 1e-12:
+        return None
+    return max(adj)
+
+
+def edge_scales(theta, unit, multi):
+    f = UNIT_PER_RAD[unit]
+    if multi:     # two scales; the second one reaches the limit
+        return dict(rmin=[theta / 64.0 * f, theta / 8.0 * f], rmax=[theta / 2.0 * f, theta * f], unit=unit)
+    return dict(rmin=theta / 64.0 * f, rmax=theta * f, unit=unit)
+
+
+def edge_substitute(op, theta, unit, multi):
+    """replace the symbolic scales of a template ('edge': up to the linkage limit, 'edge-half', 'edge-wide')"""
+    if not is_measure(op) or not isinstance(op["cfg"]["scales"], str):
+        return op
+    t = {"edge": theta, "edge-half": 0.5 * theta, "edge-wide": 2.0 * theta}[op["cfg"]["scales"]]
+    return dict(op, cfg=dict(op["cfg"], scales=edge_scales(t, unit, multi)))
+
+
+def edge_history(rng):
+    """template of a history whose final measurement (scales 'edge') runs on catalogs reopened from their caches:
+    0-3 earlier steps (measurements with neighbouring binnings and any scales, builds, single-patch builds), reopen steps
+    for a non-empty subset of the final participants (after / before / between the earlier steps), sometimes one more
+    measurement or a peek on the reopened objects; every step with an executor"""
+    final = rand_measure(rng)
+    final["cfg"]["scales"] = "edge"
+    parts = list(participants(final))
+    pre = []
+    for _ in range(rng.choice([0, 1, 1, 2, 3])):
+        r = rng.random()
+        if r < 0.55:
+            m = dict(final, cfg=neighbour_cfg(rng, final["cfg"])) if rng.random() < 0.6 else rand_measure(rng, final["cfg"])
+            m["cfg"] = dict(m["cfg"], scales=rng.choice([0, 1, 2, "edge", "edge-half", "edge-wide"]))
+            pre.append(m)
+        elif r < 0.8:
+            c = neighbour_cfg(rng, final["cfg"])
+            pre.append(dict(op="build", cat=rng.choice(parts), edges=None if rng.random() < 0.25 else c["edges"],
+                            closed=c["closed"], force=rng.random() < 0.3))
+        else:
+            c = neighbour_cfg(rng, final["cfg"])
+            pre.append(dict(op="build_patch", cat=rng.choice(parts), patch=rng.choice([0, -1, 1]), edges=c["edges"],
+                            closed=c["closed"], force=rng.random() < 0.3))
+    who = [n for n in parts if rng.random() < 0.7] or [rng.choice(parts)]
+    if rng.random() < 0.2:
+        who.append(rng.choice(CATS))          # reopened twice / a catalog that does not take part
+    rng.shuffle(who)
+    reopens = [dict(op="reopen", cat=n) for n in who]
+    r = rng.random()
+    if r < 0.65:
+        ops = pre + reopens
+    elif r < 0.8:
+        ops = reopens + pre                   # reopened right after creation; the earlier steps run on the reopened objects
+    else:
+        k = rng.randrange(len(pre) + 1)
+        ops = pre[:k] + reopens[:1] + pre[k:] + reopens[1:]
+    if rng.random() < 0.25:
+        ops.append(dict(final, cfg=dict(neighbour_cfg(rng, final["cfg"]), scales=rng.choice([0, "edge", "edge-wide"]))))
+    if rng.random() < 0.15:
+        ops.append(dict(op="peek", cat=rng.choice(parts)))
+    ops = [rand_executor(rng, op, p_here=0.55) for op in ops]
+    return ops + [rand_executor(rng, final, p_here=0.6)]
+
+
+def edge_corpus():
+    c = lambda e, cl, s="edge": dict(edges=e, closed=cl, scales=s)  # noqa: E731
+    auto = lambda cfg, d="X": dict(op="auto", cfg=cfg, data=d, rand="R")  # noqa: E731
+    cross = lambda cfg, ref, unk, rr="ref_rand": dict(op="cross", cfg=cfg, ref=ref, unk=unk, rand="R", rand_role=rr)  # noqa: E731
+    reopen = lambda cat: dict(op="reopen", cat=cat)  # noqa: E731
+    pool = lambda op, w=2: dict(op, workers=w)  # noqa: E731
+    child = lambda op: dict(op, proc="child")  # noqa: E731
+    return [
+        # measure with another binning (wider scales), reopen both catalogs, measure up to the linkage limit
+        [auto(c(2, "left", "edge-wide")), reopen("X"), reopen("R"), auto(c(0, "right"))],
+        # reopened right after creation, nothing else before (only the random catalog / only the data catalog)
+        [reopen("R"), auto(c(0, "left"))],
+        [reopen("Y"), auto(c(1, "right"), "Y")],
+        # cross-correlation, roles swapped before, unknown and its randoms reopened
+        [cross(c(0, "left", 0), "Y", "X"), reopen("Y"), reopen("R"), cross(c(0, "left"), "X", "Y", "unk_rand")],
+        # earlier steps in a pool / a child process, the final measurement pooled on the reopened objects
+        [pool(auto(c(3, "right", "edge-half"))), child(dict(op="build", cat="X", edges=None, closed="right", force=True)),
+         reopen("X"), reopen("R"), pool(auto(c(0, "right")), 3)],
+        # reopened twice with a measurement in between (same binning: trees reused)
+        [reopen("X"), auto(c(2, "right", 1)), reopen("X"), reopen("R"), auto(c(2, "right"))],
+    ]
+
+
+def edge_specs(ctx, rng):
+    out = []
+    templates = [(2000 + i, ops, "corpus") for i, ops in enumerate(edge_corpus())]
+    for _ in range(ctx.n(9, 100)):
+        templates.append((rng.randrange(10 ** 6), edge_history(rng), "random"))
+    for i, (dseed, ops, origin) in enumerate(templates):
+        margin = EDGE_MARGINS[i % len(EDGE_MARGINS)] if origin == "corpus" else rng.choice(EDGE_MARGINS)
+        unit = ["rad", "rad", "deg", "rad", "arcmin", "rad"][i % 6] if origin == "corpus" else rng.choice(["rad", "rad", "rad", "deg", "arcmin"])
+        multi = (i % 4 == 3) if origin == "corpus" else rng.random() < 0.25
+        slack = calibrate_edge(ctx, "cal%d" % i, gen_edge_data(dseed), ops[-1])
+        if slack is None:
+            ctx.bump("edge:geometry_rejected")
+            continue
+        theta = slack + margin
+        out.append(dict(dseed=dseed, geom="edge", origin=origin + "/linkage-limit",
+                        ops=[edge_substitute(op, theta, unit, multi) for op in ops],
+                        edge=dict(slack=slack, margin=margin, unit=unit, two_scales=multi)))
+    return out
+
+
 def specs(ctx):
     rng = ctx.rng
     out = [dict(dseed=1000 + i, ops=ops, origin="corpus") for i, ops in enumerate(corpus())]
     for _ in range(ctx.n(25, 400)):
         out.append(dict(dseed=rng.randrange(10 ** 6), ops=rand_history(rng), origin="random"))
-    return out
+    return out + edge_specs(ctx, rng)
 
 
 # ---------------------------------------------------------------- entry points
@@ -817,10 +1162,17 @@ def run_specs_(ctx, all_specs):
                          if where else ""),
                      dict(spec, traceback=traceback.format_exc()[-1500:]), case=idx)
     codes = ctx.shards("Cases_C07", HEADER, terms, shard=200)
-    bad = {}
-    for (idx, name), c in zip(owners, codes):
+    bad, bad_meta = {}, {}
+    for (idx, name, what), c in zip(owners, codes):
         if c:
-            bad.setdefault(idx, []).append((name, c))
+            (bad if what == "trees" else bad_meta).setdefault(idx, []).append((name, c))
+    for idx, lst in sorted(bad_meta.items()):
+        # a broken tie unless a differing measurement of the same case (ctx.fail above) makes it a failing input
+        ctx.disagree("Cases_C07_meta", idx,
+                     dict(what="a Catalog object in use reports patch metadata (num_records, sum_weights, centre, radius; "
+                               "exact float64 values) other than the object that created the cache; the model says a "
+                               "reopened catalog reads back what was computed from the records",
+                          catalogs=[n for n, _ in lst], spec=done[idx]))
     searched = 0
     for idx, lst in sorted(bad.items()):
         spec = done[idx]
@@ -848,7 +1200,7 @@ def run_specs_(ctx, all_specs):
 def raises_too(ctx, idx, spec):
     """does the history also raise when every step is executed by the measuring process itself"""
     try:
-        data = gen_data(spec["dseed"])
+        data = data_of(spec)
         _, _, _, paths = run_history(ctx, "r%d" % idx, data, [strip_exec(op) for op in spec["ops"]], record=False)
         for p in paths.values():
             shutil.rmtree(p, ignore_errors=True)
@@ -863,4 +1215,4 @@ def run(ctx):
 
 def replay(ctx, body):
     spec = body.get("replay", body)
-    run_specs(ctx, [dict(dseed=spec["dseed"], ops=spec["ops"])])
+    run_specs(ctx, [dict(dseed=spec["dseed"], ops=spec["ops"], geom=spec.get("geom"))])
